@@ -23,18 +23,19 @@ ASSUMPTIONS = [
 TRUSTED_EXTRA = ["harness/ctl_pool.cpp maps std::condition_variable / std::thread to observing substitutes while compiling thread_pool.h"]
 
 KINDS = [0, 1, 2, 3, 4, 5]
-OWNED = [0, 2, 3, 5]
-WEIGHTED_ALL = [0, 0, 2, 2, 3, 5, 5, 1, 1, 4, 4]   # the bare-handle kinds (known finding) appear in a quarter of the programs
+# body actions: 0..5 submit a closure of that kind, 6 stop() (last), 7 is_stopped(), 8 any_enqueued(), 9 co_await current()
 
 
 def mk(name, n, prog, sched):
-    """prog: list of ('s', client, kind, body, bkind) | ('x', client)"""
+    """prog: list of ('s', client, kind, [actions]) | ('x', client) stop | ('w', client) worker()"""
     ops = [[1, n]]
     for p in prog:
         if p[0] == 's':
-            ops.append([2, p[1], p[2], p[3], p[4]])
-        else:
+            ops.append([2, p[1], p[2]] + list(p[3]))
+        elif p[0] == 'x':
             ops.append([3, p[1]])
+        else:
+            ops.append([4, p[1]])
     ops.append([9] + list(sched))
     return Case("pool", name, ops)
 
@@ -56,17 +57,32 @@ def rand_sched(rng, L, nthreads):
     return [rng.choice([0, 1]) for _ in range(L)]
 
 
+def rand_body(rng):
+    r = rng.random()
+    if r < 0.4:
+        return []
+    n = rng.choice([1, 1, 1, 2, 2, 3, 4])
+    acts = []
+    for _ in range(n):
+        x = rng.random()
+        if x < 0.5:
+            acts.append(rng.choice(KINDS))
+        elif x < 0.65:
+            acts.append(rng.choice([7, 8]))
+        elif x < 0.85:
+            acts.append(9)
+        else:
+            acts.append(6)
+            break
+    return acts
+
+
 def gen_prog(rng):
-    WEIGHTED = WEIGHTED_ALL if rng.random() < 0.25 else OWNED
     m = rng.choice([1, 1, 2, 2, 3])
     ns = rng.choice([1, 2, 2, 3, 3, 4, 5, 6])
     prog = []
     for _ in range(ns):
-        cl = rng.randrange(m)
-        k = rng.choice(WEIGHTED)
-        r = rng.random()
-        body = 0 if r < 0.5 else (1 if r < 0.78 else 2)
-        prog.append(('s', cl, k, body, rng.choice(WEIGHTED)))
+        prog.append(('s', rng.randrange(m), rng.choice(KINDS), rand_body(rng)))
     # explicit stops: none / one somewhere / one on another client racing with the submissions / two
     r = rng.random()
     if r < 0.35:
@@ -76,10 +92,14 @@ def gen_prog(rng):
     elif r < 0.9:
         prog.insert(rng.randrange(len(prog) + 1), ('x', m - 1))
         if m > 1:
-            prog.append(('s', 0, rng.choice(WEIGHTED), 0, 0))
+            prog.append(('s', 0, rng.choice(KINDS), []))
     else:
         prog.insert(rng.randrange(len(prog) + 1), ('x', rng.randrange(m)))
         prog.insert(rng.randrange(len(prog) + 1), ('x', rng.randrange(m)))
+    # an external thread becomes a worker; client 0 stops the pool at the end so that worker() returns
+    if m > 1 and rng.random() < 0.25:
+        prog.insert(rng.randrange(len(prog) + 1), ('w', rng.randrange(1, m)))
+        prog.append(('x', 0))
     return m, prog
 
 
@@ -90,11 +110,15 @@ def gen(seed, tier):
     # fixed boundary programs: every kind submitted to a stopped pool / swapped out by stop / run, pool of 1
     b = 0
     for k in KINDS:
-        cases.append(mk("b%d" % b, 1, [('x', 0), ('s', 0, k, 0, 0)], [])); b += 1             # rejected in the caller
-        cases.append(mk("b%d" % b, 1, [('s', 0, 3, 0, 0), ('s', 0, k, 0, 0), ('x', 0)], [0] * 6)); b += 1   # swapped out
-        cases.append(mk("b%d" % b, 2, [('s', 0, k, 0, 0)], [1, 1, 1, 0])); b += 1              # runs
-        cases.append(mk("b%d" % b, 1, [('s', 0, 2, 2, 0), ('s', 0, k, 0, 0)], [0, 0, 1, 1, 1, 1])); b += 1  # swapped out by a self-stop
-        cases.append(mk("b%d" % b, 2, [('s', 0, 0, 1, k), ('x', 1)], [0, 2, 1, 1, 0, 0])); b += 1           # nested submission after stop
+        cases.append(mk("b%d" % b, 1, [('x', 0), ('s', 0, k, [])], [])); b += 1              # rejected in the caller
+        cases.append(mk("b%d" % b, 1, [('s', 0, 3, []), ('s', 0, k, []), ('x', 0)], [0] * 6)); b += 1   # swapped out
+        cases.append(mk("b%d" % b, 2, [('s', 0, k, [])], [1, 1, 1, 0])); b += 1              # runs
+        cases.append(mk("b%d" % b, 1, [('s', 0, 2, [6]), ('s', 0, k, [])], [0, 0, 1, 1, 1, 1])); b += 1   # swapped out by a self-stop
+        cases.append(mk("b%d" % b, 2, [('s', 0, 0, [k]), ('x', 1)], [0, 2, 1, 1, 0, 0])); b += 1         # nested submission after stop
+        cases.append(mk("b%d" % b, 2, [('s', 0, k, [7, 9, 8, k]), ('x', 1)], [1, 1, 2, 0, 2, 2, 1])); b += 1   # queries + hop
+    # destructor against a stop() issued by a job: the destructor must wait for that stop
+    for pre in itertools.product(range(3), repeat=5):
+        cases.append(mk("d%d" % b, 2, [('s', 0, 3, [6]), ('s', 0, 3, [])], list(pre) + [0] * 4)); b += 1
     for i in range(n_cases):
         n = rng.choice([1, 1, 2, 2, 3])
         m, prog = gen_prog(rng)
@@ -102,18 +126,21 @@ def gen(seed, tier):
         cases.append(mk("g%d" % i, n, prog, rand_sched(rng, L, m + n)))
     # malformed stream: bad kinds / clients / sizes are ignored identically on both sides
     for i in range(12):
-        ops = [[1, rng.choice([0, 1, 2, 7])], [2, rng.choice([0, 5]), rng.choice([0, 9]), rng.choice([0, 3]), rng.choice([0, 6])],
-               [2, 0, 2, 0], [3, rng.choice([1, 4])], [2, 1, rng.choice(KINDS), 1, 3], [7, 1], [9] + [rng.randint(0, 4) for _ in range(10)]]
+        ops = [[1, rng.choice([0, 1, 2, 7])], [2, rng.choice([0, 5]), rng.choice([0, 9]), rng.choice([0, 3]), rng.choice([0, 12])],
+               [2, 0, 2, 6, 0], [2, 0], [3, rng.choice([1, 4])], [2, 1, rng.choice(KINDS), 1, 3, 9, 9, 9, 9, 9], [7, 1], [4, 3],
+               [9] + [rng.randint(0, 4) for _ in range(10)]]
         cases.append(Case("pool", "m%d" % i, ops))
     if tier != "quick":
         cfgs = [
-            (1, [('s', 0, 0, 0, 0), ('s', 0, 2, 0, 0), ('x', 0)]),
-            (2, [('s', 0, 3, 2, 0), ('s', 0, 0, 0, 0)]),
-            (2, [('s', 0, 0, 1, 2), ('x', 1)]),
-            (1, [('s', 0, 5, 0, 0), ('x', 1), ('s', 0, 4, 0, 0)]),
-            (2, [('s', 0, 2, 2, 0), ('s', 1, 3, 2, 0)]),
-            (3, [('s', 0, 1, 0, 0), ('s', 0, 3, 0, 0), ('s', 0, 0, 0, 0)]),
-            (2, [('s', 0, 0, 2, 0), ('s', 1, 2, 1, 0), ('x', 1)]),
+            (1, [('s', 0, 0, []), ('s', 0, 2, []), ('x', 0)]),
+            (2, [('s', 0, 3, [6]), ('s', 0, 0, [])]),
+            (2, [('s', 0, 0, [2]), ('x', 1)]),
+            (1, [('s', 0, 5, []), ('x', 1), ('s', 0, 4, [])]),
+            (2, [('s', 0, 2, [6]), ('s', 1, 3, [6])]),
+            (3, [('s', 0, 1, []), ('s', 0, 3, []), ('s', 0, 0, [])]),
+            (2, [('s', 0, 0, [6]), ('s', 1, 2, [0]), ('x', 1)]),
+            (1, [('s', 0, 3, [9, 3]), ('w', 1), ('x', 0)]),
+            (2, [('s', 0, 4, [7, 9, 6]), ('s', 1, 1, [])]),
         ]
         j = 0
         for (n, prog) in cfgs:
@@ -142,7 +169,7 @@ def nontrivial(case, model_obs):
     tids = [l.split()[0] for l in model_obs if len(l.split()) == 2]
     switches = sum(1 for a, b in zip(tids, tids[1:]) if a != b)
     subs = sum(1 for o in case.ops if o and o[0] == 2)
-    stops = sum(1 for o in case.ops if o and (o[0] == 3 or (o[0] == 2 and len(o) == 5 and o[3] == 2)))
+    stops = sum(1 for o in case.ops if o and (o[0] == 3 or (o[0] == 2 and 6 in o[3:])))
     return switches >= 3 and (subs >= 2 or (subs >= 1 and stops >= 1))
 
 
@@ -158,19 +185,6 @@ def signature(case, impl_obs, model_obs):
         return "pool:use-after-destroy"
     if any(l.startswith("666") for l in impl_obs):
         return "pool:yield-under-lock"
-    forgotten, other = 0, 0
-    for l in impl_obs:
-        a = l.split()
-        if a[0] == "200" and len(a) == 7:
-            kind, ran, canc, ws = int(a[2]), int(a[3]), int(a[4]), int(a[5])
-            if kind in (1, 4) and ran == 0 and canc == 0 and ws == 0:
-                forgotten += 1      # bare [h] closure destroyed un-run: nobody resumes the coroutine
-            elif ran + canc != 1 or ws != (1 if ran == 1 else 2):
-                other += 1
-        elif a[0] == "100" and (len(a) != 5 or a[4] != "0"):
-            other += 1
-    if forgotten and not other and obs_equal(case, model_obs, impl_obs):
-        return "pool:bare-handle-forgotten"
     return "pool:oracle"
 
 
